@@ -23,7 +23,7 @@ LEVEL_TEXT = ('The complete product of 17 raw types, 17 scaling configurations (
               'three channel lengths and ~25 read operations is executed; every successful read must return an array of dtype '
               'channel.dtype (empty results included) and a full read must have len(channel) elements.')
 LEVEL_NOTE = ('Self-consistency oracle (channel.dtype vs returned dtype): needs no reference values. With raw_timestamps=True the '
-              'statement does not fix channel.dtype for timestamp channels; there only mutual consistency of non-empty reads is judged.')
+              'statement does not fix the dtype of timestamp channels; nothing is judged there except lengths.')
 ASSUMPTIONS = ['complex / bool / string / timestamp data combined with a scale is outside the domain (NI scales act on real numeric data)']
 
 A, B = F.A, F.B
@@ -129,12 +129,19 @@ def ops_for(tf, ch, lazy, L):
     return ops
 
 
-def check_file(t, sname, L, seed):
+def check_file(t, sname, L, seed, big=False):
     """-> (n_reads, problems[(kind, op, mode, raw_ts, declared, actual)])"""
     props = SCALINGS[sname] or []
     n, chunks = (0, 1) if L == 0 else ((1, 1) if L == 1 else (3, 2))
-    enc = ['FULL', 'String', n, 2 * n + 1] if t == 'String' else ['FULL', t, n]
-    hist = [G.seg([(A, enc, props), (B, ['FULL', 'Int8', 1])], chunks=chunks)]
+    if t == 'DAQmx':
+        enc = F.daqmx_enc(n, [(5, 0, 2, 0, 0), (2, 0, 6, 0, 1)], [8])
+        props = props or F.DAQMX_SCALE_PROPS
+        if n == 0:
+            return 0, []
+    else:
+        enc = ['FULL', 'String', n, 2 * n + 1] if t == 'String' else ['FULL', t, n]
+    comp = (B, F.daqmx_enc(n, [(3, 0, 0, 0, 0)], [8])) if t == 'DAQmx' else (B, ['FULL', 'Int8', 1])
+    hist = [G.seg([(A, enc, props), comp], chunks=chunks, big=big)]
     data = G.encode(hist, seed=seed)[0]
     probs = []
     reads = 0
@@ -176,8 +183,6 @@ def check_file(t, sname, L, seed):
                             probs.append(('dtype-mismatch' if len(x) else 'empty-dtype-mismatch', name, lazy, raw_ts, str(declared), str(d)))
                     if name in ('full', 'ellipsis', 'read_data', 'data') and hasattr(rr[1], '__len__') and len(rr[1]) != len(ch):
                         probs.append(('full-read-length', name, lazy, raw_ts, len(ch), len(rr[1])))
-                if len(nonempty_dtypes) > 1:
-                    probs.append(('raw-ts-inconsistent', 'several', lazy, raw_ts, None, sorted(nonempty_dtypes)))
             finally:
                 if lazy:
                     tf.close()
@@ -190,8 +195,9 @@ def _worker(item):
     snames = list(SCALINGS) if t in NUMERIC else ['none']
     seen = set()
     for sname in snames:
+      for big in ((False, True) if sname in ('none', 'Linear', 'AddRawRaw') else (False,)):
         for L in (0, 1, 6):
-            reads, probs = check_file(t, sname, L, seed)
+            reads, probs = check_file(t, sname, L, seed, big)
             res['counters']['files'] += 1
             res['counters']['reads'] += reads
             res['counters']['nontrivial'] += 1 if (L or sname != 'none') else 0
@@ -199,14 +205,14 @@ def _worker(item):
             res['outcomes'][oc] = res['outcomes'].get(oc, 0) + 1
             for (kind, op, lazy, raw_ts, declared, actual) in probs:
                 sig = {'kind': kind, 'raw': t, 'scale': sname.split(':')[0], 'declared': declared if isinstance(declared, str) else None,
-                       'actual': actual if isinstance(actual, str) else None}
+                       'actual': actual if isinstance(actual, str) else None, 'big': big}
                 if kind == 'not-an-array':
                     sig['op'] = op
                 k = repr(sorted(sig.items()))
                 if k in seen:
                     continue
                 seen.add(k)
-                res['violations'].append({'case': {'raw': t, 'scale': sname, 'length': L, 'op': op, 'lazy': lazy, 'raw_ts': raw_ts, 'seed': seed},
+                res['violations'].append({'case': {'raw': t, 'scale': sname, 'length': L, 'big': big, 'op': op, 'lazy': lazy, 'raw_ts': raw_ts, 'seed': seed},
                                           'expected': 'dtype %s' % (declared,), 'observed': '%s: %s returned %s' % (kind, op, actual),
                                           'signature': sig})
     res['samples'].append({'raw': t, 'scalings': snames[:4], 'lengths': [0, 1, 6]})
@@ -215,7 +221,7 @@ def _worker(item):
 
 def run(ctx):
     from ..run import merge
-    m = merge(ctx.map(_worker, [(t, ctx.seed) for t in G.T17]))
+    m = merge(ctx.map(_worker, [(t, ctx.seed) for t in G.T17 + ['DAQmx']]))
     c = m['counters']
     cov = {'evaluations': c['reads'], 'files': c['files'], 'distinct_nontrivial': c['nontrivial'],
            'rule': 'distinct files = (raw type, scaling, length); non-trivial = has data or a scaling; evaluations = individual reads '
@@ -226,7 +232,7 @@ def run(ctx):
 
 
 def replay(case):
-    reads, probs = check_file(case['raw'], case['scale'], case['length'], case.get('seed', 0))
+    reads, probs = check_file(case['raw'], case['scale'], case['length'], case.get('seed', 0), case.get('big', False))
     for (kind, op, lazy, raw_ts, declared, actual) in probs:
         if op == case['op'] and lazy == case['lazy'] and raw_ts == case['raw_ts']:
             return True, 'dtype %s' % (declared,), '%s: %s returned %s' % (kind, op, actual)
